@@ -2,6 +2,7 @@ package c09
 
 import (
 	"fmt"
+	"strconv"
 	"strings"
 	"testing"
 
@@ -15,6 +16,14 @@ import (
 // over `new Channel(cap)`. Operations are reported through the registered Go
 // functions __b(task, kind, arg) / __e(task, ret), never through a second channel.
 func script(w *W) string {
+	src := script0(w)
+	if w.Payload == "obj" { // classes are registered at parse time: the declaration can follow its uses
+		src += "class Msg { public $id; public function __construct($id) { $this->id = $id; } }\n"
+	}
+	return src
+}
+
+func script0(w *W) string {
 	var b strings.Builder
 	b.WriteString("<?php\n")
 	fmt.Fprintf(&b, "$ch = new Channel(%d);\n", w.Cap)
@@ -50,6 +59,12 @@ func script(w *W) string {
 			switch w.Payload {
 			case "int": // the value is the number itself; it is recorded as "p<i>-<k>" through __pv
 				fmt.Fprintf(&b, "  __b(%d, \"send\", \"p%d-%d\");\n  $r = $ch->send(%d);\n  __e(%d, $r);\n", id, p, k, 1000*(p+1)+k, id)
+				continue
+			case "numstr": // numeric strings with leading zeros must arrive as the strings they are
+				fmt.Fprintf(&b, "  __b(%d, \"send\", \"p%d-%d\");\n  $r = $ch->send(\"000%d\");\n  __e(%d, $r);\n", id, p, k, 1000*(p+1)+k, id)
+				continue
+			case "obj":
+				fmt.Fprintf(&b, "  $m = new Msg(\"p%d-%d\");\n  __b(%d, \"send\", \"p%d-%d\");\n  $r = $ch->send($m);\n  __e(%d, $r);\n", p, k, id, p, k, id)
 				continue
 			case "float":
 				fmt.Fprintf(&b, "  __b(%d, \"send\", \"p%d-%d\");\n  $r = $ch->send(%d.5);\n  __e(%d, $r);\n", id, p, k, 1000*(p+1)+k, id)
@@ -147,12 +162,24 @@ func execScript(t *testing.T, w *W, s hx.Sched) *hx.Outcome {
 				ret = strings.Join(parts, "-")
 			}
 			switch v := a[1].(type) {
+			case *data.ClassValue:
+				if w.Payload == "obj" {
+					if zv, ctl := v.GetPropertyZVal("id"); ctl == nil && zv != nil && zv.Value != nil {
+						ret = hx.ValStr(zv.Value)
+					}
+				}
+			case *data.StringValue:
+				if w.Payload == "numstr" && len(v.Value) >= 7 && strings.HasPrefix(v.Value, "000") {
+					if n, err := strconv.Atoi(v.Value); err == nil {
+						ret = fmt.Sprintf("p%d-%d", n/1000-1, n%1000)
+					}
+				}
 			case *data.IntValue:
 				// an integer payload 1000*(p+1)+k stands for "p<p>-<k>"
 				if (w.Payload == "int" || w.Payload == "loopint") && v.Value >= 1000 {
 					ret = fmt.Sprintf("p%d-%d", v.Value/1000-1, v.Value%1000)
-				} else if w.Payload == "float" {
-					ret = fmt.Sprintf("int(%d)-instead-of-float", v.Value)
+				} else if w.Payload == "float" || w.Payload == "numstr" {
+					ret = fmt.Sprintf("int(%d)-instead-of-%s", v.Value, w.Payload)
 				}
 			case *data.FloatValue:
 				if w.Payload == "float" {
